@@ -234,6 +234,13 @@ def equality_panel(ctx, rng, lattices, reqs, meta):
         for f, want in ((0.9, True), (1.1, False), (0.5, True), (3.0, False)):
             Q = P.copy(); k = int(rng.integers(n)); ax = int(rng.integers(2)); Q[k, ax] += f * tol * (1 if rng.integers(2) else -1)
             variants.append((f"displace {f}x tol", Lattice(Q, E, C), want))
+        # just above the tolerance, at the vertex with the largest coordinate (where a tolerance that grows with the coordinates would be most generous)
+        k, ax = np.unravel_index(int(np.argmax(P)), P.shape)
+        for f in (1.001, 1.01):
+            Q = P.copy(); Q[k, ax] += f * tol
+            variants.append((f"displace the largest coordinate by {f}x tol", Lattice(Q, E, C), False))
+            Q = P.copy(); Q[k, ax] -= f * tol
+            variants.append((f"displace the largest coordinate by -{f}x tol", Lattice(Q, E, C), False))
         for dv in ((1, 0), (0, -1), (-1, 2), (1, 1)):                  # a whole number of cells is a displacement like any other (edges and crossings unchanged)
             Q = P.copy(); k = int(rng.integers(n)); Q[k] += np.array(dv, dtype=float)
             variants.append((f"displace by the cell vector {dv}", Lattice(Q, E, C), False))
